@@ -11,9 +11,12 @@
 (* is  accepted /\ (uc => allow_comments) /\ (ut => allow_trailing_comma). *)
 (* Both relaxations are purely additive and unambiguous, so this is exact. *)
 (*                                                                         *)
-(* Values:  <<"null">>  <<"bool",b>>  <<"num",chars>>  <<"str",cps>>       *)
-(*          <<"arr",seq>>  <<"obj",seq of <<keycps,value>> >> (first       *)
-(*          duplicate wins, order of first occurrence)                     *)
+(* Raw values (as written, duplicates kept, in text order):                *)
+(*   <<"null">>  <<"bool",b>>  <<"num",chars>>  <<"str",cps>>              *)
+(*   <<"arr",seq>>  <<"obj",seq of <<keycps,value>> >>                     *)
+(* ValueOf(raw) is the value the RFC/property assigns (first duplicate     *)
+(* member name wins, order of first occurrence; numbers classified);       *)
+(* EventsOf(raw) is the parse-event sequence (every member reported).      *)
 (***************************************************************************)
 EXTENDS Naturals, Sequences, FiniteSets, TLC
 
@@ -85,8 +88,7 @@ Deliver(s, v) ==
     IF top.k = "arr"
     THEN [s EXCEPT !.m = "arre", !.tok = <<>>, !.stk[Len(s.stk)].xs = Append(top.xs, v)]
     ELSE [s EXCEPT !.m = "obje", !.tok = <<>>,
-                   !.stk[Len(s.stk)].xs = IF HasKey(top.xs, top.pk) THEN top.xs
-                                           ELSE Append(top.xs, <<top.pk, v>>)]
+                   !.stk[Len(s.stk)].xs = Append(top.xs, <<top.pk, v>>)]
 
 Open(s, k) == LET st == Append(s.stk, Frame(k)) IN
   [s EXCEPT !.stk = st, !.m = IF k = "arr" THEN "arr0" ELSE "obj0",
@@ -265,4 +267,27 @@ NumClass(cs) ==
   IF ~IsIntLit(cs) THEN "real"
   ELSE IF cs[1] = MINUS THEN IF DigLE(Tail(cs), D2_63) THEN "int" ELSE "big"
   ELSE IF DigLE(cs, D2_63m1) THEN "int" ELSE IF DigLE(cs, D2_64m1) THEN "uint" ELSE "big"
+
+-----------------------------------------------------------------------------
+(* Output views of a raw value *)
+RECURSIVE DedupFrom(_, _, _)
+DedupFrom(ps, i, acc) ==
+  IF i > Len(ps) THEN acc
+  ELSE DedupFrom(ps, i + 1, IF HasKey(acc, ps[i][1]) THEN acc ELSE Append(acc, ps[i]))
+
+RECURSIVE ValueOf(_)
+ValueOf(v) == CASE v[1] = "num" -> <<"num", NumClass(v[2]), v[2]>>
+              [] v[1] = "arr" -> <<"arr", [i \in 1..Len(v[2]) |-> ValueOf(v[2][i])]>>
+              [] v[1] = "obj" -> LET d == DedupFrom(v[2], 1, <<>>) IN
+                                 <<"obj", [i \in 1..Len(d) |-> <<d[i][1], ValueOf(d[i][2])>>]>>
+              [] OTHER -> v
+
+RECURSIVE EventsOf(_), EventsOfSeq(_, _), EventsOfMembers(_, _)
+EventsOf(v) == CASE v[1] = "num" -> << <<"num", NumClass(v[2]), v[2]>> >>
+               [] v[1] = "arr" -> << <<"ba">> >> \o EventsOfSeq(v[2], 1) \o << <<"ea">> >>
+               [] v[1] = "obj" -> << <<"bo">> >> \o EventsOfMembers(v[2], 1) \o << <<"eo">> >>
+               [] OTHER -> <<v>>
+EventsOfSeq(xs, i) == IF i > Len(xs) THEN <<>> ELSE EventsOf(xs[i]) \o EventsOfSeq(xs, i + 1)
+EventsOfMembers(ps, i) == IF i > Len(ps) THEN <<>>
+                          ELSE << <<"key", ps[i][1]>> >> \o EventsOf(ps[i][2]) \o EventsOfMembers(ps, i + 1)
 =============================================================================
